@@ -92,6 +92,16 @@ func CookieSet(w http.ResponseWriter, name string) (value string, maxAge int, ok
 // after a call iff no field was written. Symbolically a constant: there the write frame decides.
 func Fingerprint(x any) string { stub(); return "" }
 
+// JWKS is the body a JWKS endpoint serves for keys (values of jose.JSONWebKey, passed as a slice); an entry of
+// a key type go-jose does not know is spliced in at position unknownAt (-1: none).
+func JWKS(keys any, unknownAt int) string { stub(); return "" }
+
+// Settle lets every other goroutine run until it blocks (natively a short sleep; symbolically a scheduling point).
+func Settle() { stub() }
+
+// Yield is an explicit scheduling point (concurrency mode); natively runtime.Gosched.
+func Yield() { stub() }
+
 // Debugf records a diagnostic line in native runs; ignored symbolically.
 func Debugf(format string, args ...any) { stub() }
 
